@@ -1,13 +1,13 @@
 SPECIFICATION Spec
 CONSTANTS
   Pre = 0
-  NSamples = 2
-  FragSNs = {1}
+  NSamples = 3
+  FragSNs = {}
   NF = 2
-  MaxFaults = 3
+  MaxFaults = 1
   K = 3
   MaxRounds = 6
-  MaxRematch = 0
+  MaxRematch = 1
   GenK = 3
 VIEW View
 INVARIANT Inv_Converge
